@@ -26,6 +26,8 @@ pub enum POp {
     Wake { c: u32 },
     Clone { c: u32 },
     Drop { c: u32 },
+    /// end of the sequential set-up phase (exhaustive mode): schedules are enumerated only after it
+    Barrier,
 }
 
 #[derive(Clone, Debug, Serialize, Deserialize, Default)]
@@ -38,6 +40,14 @@ pub struct GateScenario {
     pub schedule: Vec<usize>,
     #[serde(default)]
     pub exact: bool,
+    /// exhaustive mode: position in the owner's op list of the barrier (0 = none)
+    #[serde(default)]
+    pub owner_barrier: usize,
+    /// exhaustive mode: preemptions (global step, thread to switch to); otherwise threads run until they block or finish
+    #[serde(default)]
+    pub plan: Vec<(u64, usize)>,
+    #[serde(default)]
+    pub exhaustive: bool,
 }
 
 fn gen_gate(rng: &mut Rng, stress: bool) -> GateScenario {
@@ -90,7 +100,7 @@ fn gen_gate(rng: &mut Rng, stress: bool) -> GateScenario {
         }
         producers.push(ops);
     }
-    GateScenario { id: String::new(), base, producers, schedule: vec![], exact: !stress }
+    GateScenario { id: String::new(), base, producers, schedule: vec![], exact: !stress, ..Default::default() }
 }
 
 fn producer_body(ops: &[POp], gated: bool) {
@@ -160,6 +170,11 @@ fn producer_body(ops: &[POp], gated: bool) {
                     drop(wk);
                 }
             }
+            POp::Barrier => {
+                if gated {
+                    gate::sync("barrier");
+                }
+            }
         }
     }
     if gated {
@@ -188,7 +203,8 @@ fn lock_info(label: &str) -> Option<(u32, i64)> {
     Some((kind, key))
 }
 
-pub fn run_gate(sc: &mut GateScenario, run: u64, rng: Option<&mut Rng>) {
+pub fn run_gate(sc: &mut GateScenario, run: u64, rng: Option<&mut Rng>) -> Vec<(u64, Vec<usize>, usize)> {
+    let mut alts: Vec<(u64, Vec<usize>, usize)> = vec![];
     let gated = sc.exact;
     reset_world(true);
     ev(format!(
@@ -205,14 +221,15 @@ pub fn run_gate(sc: &mut GateScenario, run: u64, rng: Option<&mut Rng>) {
         gate::init(nthreads);
     }
     let base = sc.base.clone();
+    let owner_barrier = sc.owner_barrier;
     let owner = std::thread::spawn(move || {
         if gated {
             gate::register(0);
         }
         if let Some(mut r) = Runner::construct(&base) {
-            for op in &base.ops {
+            for (k, op) in base.ops.iter().enumerate() {
                 if gated {
-                    gate::sync("op");
+                    gate::sync(if owner_barrier != 0 && k == owner_barrier { "barrier" } else { "op" });
                 }
                 r.apply(op);
             }
@@ -256,6 +273,9 @@ pub fn run_gate(sc: &mut GateScenario, run: u64, rng: Option<&mut Rng>) {
             None => &mut rng_local,
         };
         let mut steps = 0u64;
+        let mut at_barrier = vec![false; nthreads];
+        let mut setup_done = false;
+        let mut step0 = 0u64;
         loop {
             let runnable: Vec<usize> = (0..nthreads)
                 .filter(|t| !done[*t])
@@ -267,7 +287,31 @@ pub fn run_gate(sc: &mut GateScenario, run: u64, rng: Option<&mut Rng>) {
             if runnable.is_empty() {
                 break;
             }
-            let t = if replay && pos < sc.schedule.len() && runnable.contains(&sc.schedule[pos]) {
+            let t = if sc.exhaustive {
+                // set-up phase: every thread runs to its barrier, owner first; afterwards threads run until they
+                // block or finish, except at the preemption points of the plan
+                let not_at_barrier: Vec<usize> = runnable.iter().copied().filter(|t| !at_barrier[*t]).collect();
+                if !setup_done && !not_at_barrier.is_empty() {
+                    not_at_barrier[0]
+                } else {
+                    if !setup_done {
+                        setup_done = true;
+                        step0 = steps;
+                    }
+                    let rel = steps - step0;
+                    alts.push((rel, runnable.clone(), cur));
+                    match sc.plan.iter().find(|p| p.0 == rel) {
+                        Some(p) if runnable.contains(&p.1) => p.1,
+                        _ => {
+                            if runnable.contains(&cur) {
+                                cur
+                            } else {
+                                runnable[0]
+                            }
+                        }
+                    }
+                }
+            } else if replay && pos < sc.schedule.len() && runnable.contains(&sc.schedule[pos]) {
                 sc.schedule[pos]
             } else if runnable.contains(&cur) && rng.pct(65) {
                 cur
@@ -282,8 +326,12 @@ pub fn run_gate(sc: &mut GateScenario, run: u64, rng: Option<&mut Rng>) {
             wants.remove(&t);
             if label == "exit" {
                 done[t] = true;
+                at_barrier[t] = true;
                 held.remove(&t);
                 continue;
+            }
+            if label == "barrier" {
+                at_barrier[t] = true;
             }
             match lock_info(&label) {
                 // about to take the slot lock
@@ -329,6 +377,81 @@ pub fn run_gate(sc: &mut GateScenario, run: u64, rng: Option<&mut Rng>) {
     }
     take_allocs();
     ev(r#"{"e":"end"}"#.to_string());
+    alts
+}
+
+/// the fixed small programs whose schedules are enumerated exhaustively (preemption-bounded)
+pub fn exhaustive_scenarios() -> Vec<GateScenario> {
+    let pend = |n: usize| (0..n).map(|_| Step { acts: vec![], resp: "P".into() }).collect::<Vec<_>>();
+    let push = |c: u32| Op::Push { c, front: false, r#try: false };
+    let mut v = vec![];
+    let mk = |id: &str, kind: &str, cap: usize, scripts: Vec<(u32, Vec<Step>)>, ops: Vec<Op>, barrier: usize, producers: Vec<Vec<POp>>| {
+        let mut base = Scenario { kind: kind.into(), cap, ctor: "with_capacity".into(), tail: "none".into(), ..Default::default() };
+        for (c, st) in scripts {
+            base.scripts.insert(c, st);
+        }
+        base.ops = ops;
+        base.id = id.to_string();
+        GateScenario { id: id.to_string(), base, producers, schedule: vec![], exact: true, owner_barrier: barrier, plan: vec![], exhaustive: true }
+    };
+    // S1: one child, a wake races two polls
+    v.push(mk("x1:wake-vs-poll", "fub", 1, vec![(1, pend(8))], vec![push(1), Op::Poll { w: 1 }, Op::Poll { w: 1 }, Op::Poll { w: 1 }, Op::DropColl], 2,
+        vec![vec![POp::Take { c: 1 }, POp::Barrier, POp::WakeByRef { c: 1 }]]));
+    // S2: the task waker changes between the polls
+    v.push(mk("x2:waker-change", "fub", 1, vec![(1, pend(8))], vec![push(1), Op::Poll { w: 1 }, Op::Poll { w: 2 }, Op::Poll { w: 2 }], 2,
+        vec![vec![POp::Take { c: 1 }, POp::Barrier, POp::WakeByRef { c: 1 }]]));
+    // S3: two producers, two children: delegated notification
+    v.push(mk("x3:two-producers", "fub", 2, vec![(1, pend(8)), (2, pend(8))], vec![push(1), push(2), Op::Poll { w: 1 }, Op::Poll { w: 1 }, Op::Poll { w: 1 }], 3,
+        vec![vec![POp::Take { c: 1 }, POp::Barrier, POp::WakeByRef { c: 1 }], vec![POp::Take { c: 2 }, POp::Barrier, POp::WakeByRef { c: 2 }]]));
+    // S4: the collection dies while a waker is used and dropped on another thread (last reference race)
+    v.push(mk("x4:drop-race", "fub", 1, vec![(1, pend(8))], vec![push(1), Op::Poll { w: 1 }, Op::DropColl], 2,
+        vec![vec![POp::Take { c: 1 }, POp::Barrier, POp::WakeByRef { c: 1 }, POp::Clone { c: 1 }, POp::Drop { c: 1 }, POp::Wake { c: 1 }]]));
+    // S5: stale waker of a finished child, slot reused
+    v.push(mk("x5:stale-reuse", "fub", 1, vec![(1, vec![Step { acts: vec![], resp: "P".into() }, Step { acts: vec![], resp: "R".into() }]), (2, pend(8))],
+        vec![push(1), Op::Poll { w: 1 }, Op::Wake { c: 1, by_val: false }, Op::Poll { w: 1 }, push(2), Op::Poll { w: 1 }, Op::Poll { w: 1 }], 3,
+        vec![vec![POp::Take { c: 1 }, POp::Barrier, POp::WakeByRef { c: 1 }, POp::WakeByRef { c: 1 }]]));
+    // S6: two groups of the unbounded collection
+    v.push(mk("x6:two-groups", "fu", 1, vec![(1, pend(8)), (2, pend(8))], vec![push(1), push(2), Op::Poll { w: 1 }, Op::Poll { w: 1 }, Op::Poll { w: 2 }], 3,
+        vec![vec![POp::Take { c: 1 }, POp::Barrier, POp::WakeByRef { c: 1 }], vec![POp::Take { c: 2 }, POp::Barrier, POp::WakeByRef { c: 2 }]]));
+    // S7: repeated wakes of one child from two threads (at most one queue entry)
+    v.push(mk("x7:double-wake", "fub", 1, vec![(1, pend(8))], vec![push(1), Op::Poll { w: 1 }, Op::Poll { w: 1 }, Op::Poll { w: 1 }], 2,
+        vec![vec![POp::Take { c: 1 }, POp::Barrier, POp::WakeByRef { c: 1 }], vec![POp::Take { c: 1 }, POp::Barrier, POp::Wake { c: 1 }]]));
+    v
+}
+
+/// enumerate every schedule with at most `pb` preemptions (depth-first over preemption plans)
+fn explore(sc0: &GateScenario, pb: usize, run: &mut u64, limit: u64, emit: &mut dyn FnMut(&GateScenario, Vec<String>)) {
+    let mut stack: Vec<Vec<(u64, usize)>> = vec![vec![]];
+    while let Some(plan) = stack.pop() {
+        if *run >= limit {
+            return;
+        }
+        let mut sc = sc0.clone();
+        sc.plan = plan.clone();
+        sc.schedule.clear();
+        *run += 1;
+        sc.id = format!("{}:pb{}:{:?}", sc0.id, plan.len(), plan);
+        sc.base.id = sc.id.clone();
+        let alts = run_gate(&mut sc, *run, None);
+        emit(&sc, take_log());
+        if plan.len() < pb {
+            let after = plan.last().map(|p| p.0 as i64).unwrap_or(-1);
+            for (rel, runnable, cur) in alts {
+                if (rel as i64) <= after {
+                    continue;
+                }
+                // what the default policy does at this step
+                let default = if runnable.contains(&cur) { cur } else { runnable[0] };
+                for t in runnable {
+                    if t != default {
+                        let mut p2 = plan.clone();
+                        p2.push((rel, t));
+                        stack.push(p2);
+                    }
+                }
+            }
+        }
+    }
 }
 
 pub fn main(args: &[String]) {
@@ -339,6 +462,7 @@ pub fn main(args: &[String]) {
             let seed: u64 = arg("--seed").and_then(|s| s.parse().ok()).unwrap_or(1);
             let n: u64 = arg("--n").and_then(|s| s.parse().ok()).unwrap_or(100);
             let mut out = std::io::BufWriter::new(std::fs::File::create(arg("--out").expect("--out")).unwrap());
+            crate::start_watchdog(arg("--out").unwrap(), 20);
             let mut scn_out = arg("--scn-out").map(|p| std::io::BufWriter::new(std::fs::File::create(p).unwrap()));
             let mut rng = Rng::new(seed ^ 0x6A7E);
             let mut events = 0u64;
@@ -354,8 +478,44 @@ pub fn main(args: &[String]) {
                     events += 1;
                     writeln!(out, "{}", l).unwrap();
                 }
+                out.flush().unwrap();
+                if let Some(s) = scn_out.as_mut() {
+                    s.flush().unwrap();
+                }
             }
             println!("{{\"runs\":{},\"events\":{}}}", n, events);
+        }
+        "exhaust" => {
+            let pb: usize = arg("--pb").and_then(|s| s.parse().ok()).unwrap_or(1);
+            let limit: u64 = arg("--limit").and_then(|s| s.parse().ok()).unwrap_or(200_000);
+            let only = arg("--only");
+            let mut out = std::io::BufWriter::new(std::fs::File::create(arg("--out").expect("--out")).unwrap());
+            crate::start_watchdog(arg("--out").unwrap(), 20);
+            let mut scn_out = arg("--scn-out").map(|p| std::io::BufWriter::new(std::fs::File::create(p).unwrap()));
+            let mut run = 0u64;
+            let mut events = 0u64;
+            let mut per = vec![];
+            for sc in exhaustive_scenarios() {
+                if let Some(o) = &only {
+                    if !sc.id.starts_with(o.as_str()) {
+                        continue;
+                    }
+                }
+                let before = run;
+                let lim = run + limit;
+                explore(&sc, pb, &mut run, lim, &mut |s, log| {
+                    if let Some(so) = scn_out.as_mut() {
+                        writeln!(so, "{}", serde_json::to_string(s).unwrap()).unwrap();
+                    }
+                    for l in log {
+                        events += 1;
+                        writeln!(out, "{}", l).unwrap();
+                    }
+                    out.flush().unwrap();
+                });
+                per.push(format!("\"{}\":{}", sc.id, run - before));
+            }
+            println!("{{\"runs\":{},\"events\":{},\"pb\":{},\"schedules\":{{{}}}}}", run, events, pb, per.join(","));
         }
         "run" => {
             let inp = std::fs::File::open(&args[1]).expect("open scenarios");
